@@ -69,10 +69,10 @@ Proof.
       reflexivity.
 Qed.
 
-Lemma crash_raise {A} (x : exn) : crash_ok (fun _ => @raise state A x).
+Lemma crash_raise {A} (x : exn) : crash_ok (fun _ => @raise state state A x).
 Proof. intros ev k e SR p s t0 s0 a H. discriminate. Qed.
 
-Lemma crash_get : crash_ok (fun _ => @get state).
+Lemma crash_get : crash_ok (fun _ => @get state state).
 Proof.
   intros ev k e SR p s t0 s0 a H. unfold get in *. inversion H; subst. split; intros; [reflexivity|].
   cbn in *. lia.
